@@ -1884,6 +1884,76 @@ def rule_r22(ctx):
         raise AnalysisBroken("only %d (init unwinding through its fini, global released) instances found" % n)
 
 
+# ---------------------------------------------------------------------------
+# R23: a counter of table entries follows the table
+
+
+def rule_r23(ctx):
+    from .. import guards as G
+    r = ctx.rule("C20.R23", "T9", "a counter of table entries follows the table: where a record keeps a count that is incremented on the "
+                 "success edge of nni_id_set into one of its id maps (the count of entries: a limit is enforced with it), every "
+                 "decrement of that count is made where an entry is taken out of the same map (same basic block as the "
+                 "nni_id_remove) -- an undo that decrements for an object whose insertion failed (the map could not grow) takes "
+                 "the count below the number of entries: unsigned, it wraps, and the limit refuses everybody from then on", floor=1)
+    prog = ctx.prog
+    counters = {}     # 'rec.count' -> 'rec.map'
+
+    def incs(f):
+        for t in f.sites():
+            nd = t.node
+            tgt = None
+            if nd.get("k") == "un" and nd.get("op") in ("++",) and nd["e"].get("k") == "mem":
+                tgt = nd["e"]
+            elif nd.get("k") == "asg" and nd.get("op") == "+=" and nd["lhs"].get("k") == "mem" and const_of(f.expand(nd["rhs"])) == 1:
+                tgt = nd["lhs"]
+            if tgt is not None:
+                yield t, tgt
+
+    def decs(f):
+        for t in f.sites():
+            nd = t.node
+            tgt = None
+            if nd.get("k") == "un" and nd.get("op") in ("--",) and nd["e"].get("k") == "mem":
+                tgt = nd["e"]
+            elif nd.get("k") == "asg" and nd.get("op") == "-=" and nd["lhs"].get("k") == "mem" and const_of(f.expand(nd["rhs"])) == 1:
+                tgt = nd["lhs"]
+            if tgt is not None:
+                yield t, tgt
+    fns = [f for f in prog.functions if not f.cfg_failed and not f.file.endswith("_test.c")]
+    for f in fns:
+        sets = list(f.calls("nni_id_set"))
+        if not sets:
+            continue
+        for t, tgt in incs(f):
+            for c in sets:
+                ok_edges = {b: z for b, (nz, z) in f.value_edges(c).items()}
+                if ok_edges and G.dominated(f, (t.b, t.i), ok_edges) and c.node["args"]:
+                    m = last_field(f.expand(c.node["args"][0]))
+                    if m and last_field(tgt) and m.split(".")[0] == last_field(tgt).split(".")[0]:
+                        counters[last_field(tgt)] = m
+    n = 0
+    for f in fns:
+        for t, tgt in decs(f):
+            cf = last_field(tgt)
+            if cf not in counters:
+                continue
+            n += 1
+            blk = f.blocks[t.b]
+            same = any(e is not None and any(m.get("k") == "call" and m.get("fn") == "nni_id_remove" and m["args"] and
+                                             last_field(f.expand(m["args"][0])) == counters[cf] for m in walk(f.expand(e)))
+                       for e in blk.elems)
+            if same:
+                r.ob(f, "%s-- (line %s) where an entry leaves %s" % (cf, t.line, counters[cf]))
+            else:
+                ctx.fail(r, f, "%s decremented away from the removal" % cf, t.line,
+                         "%s decrements %s at line %s, but not where an entry is removed from %s (nni_id_remove in the same block): "
+                         "%s is incremented only when nni_id_set succeeded, so an object whose insertion failed is uncounted "
+                         "here all the same, and the unsigned count wraps" % (f.name, cf, t.line, counters[cf], cf))
+    if not counters or n < 1:
+        raise AnalysisBroken("no entry counter maintained beside an id map found (udp_ep.peer_count was one)")
+    r.notes.append("entry counters: " + ", ".join("%s beside %s" % kv for kv in sorted(counters.items())))
+
+
 def run(ctx):
     ctx.guard(rule_r1)
     ctx.guard(rule_r2)
@@ -1906,3 +1976,4 @@ def run(ctx):
     ctx.guard(rule_r20)
     ctx.guard(rule_r21)
     ctx.guard(rule_r22)
+    ctx.guard(rule_r23)
